@@ -369,6 +369,30 @@ def c01_cases(seed, n, tier, replay=None):
         r = util.rng(seed, "C01", "s", label)
         add("s%04d" % i, doc, label, r, settings={"struct_builder": r.random() < 0.5}, hk="root")
         meta["s%04d" % i]["settings_sig"] = "small"
+    # a definition whose name equals the name typify derives for an inline type of ANOTHER definition
+    inline_kinds = [
+        ("prop_object", lambda: {"type": "object", "properties": {"bar": {"type": "object", "properties": {"x": {"type": "integer"}}}}}, "FooBar"),
+        ("prop_enum", lambda: {"type": "object", "properties": {"bar": {"type": "string", "enum": ["p", "q"]}}}, "FooBar"),
+        ("array_item", lambda: {"type": "array", "items": {"type": "object", "properties": {"x": {"type": "integer"}}}}, "FooItem"),
+        ("map_value", lambda: {"type": "object", "additionalProperties": {"type": "string", "enum": ["p", "q"]}}, "FooValue"),
+        ("nullable_inner", lambda: {"type": ["object", "null"], "properties": {"x": {"type": "integer"}}}, "FooInner"),
+        ("variant", lambda: {"oneOf": [{"type": "object", "required": ["Bar"], "properties": {"Bar": {"type": "string", "enum": ["p"]}},
+                                        "additionalProperties": False}]}, "FooBar"),
+    ]
+    k_ = 0
+    for label, mk, derived in inline_kinds:
+        for other in ({"type": "object", "properties": {"y": {"type": "string"}}}, {"type": "string", "enum": ["z"]}):
+            for hk, order in (("root", None), ("refs_split", ["Foo", derived]), ("refs_split", [derived, "Foo"])):
+                doc = {"definitions": {"Foo": mk(), derived: other}}
+                cid = "n%03d" % k_
+                k_ += 1
+                r = util.rng(seed, "C01", "n", cid)
+                hist = [{"op": "root", "schema": doc}] if order is None else \
+                    [{"op": "refs", "defs": [[n_, doc["definitions"][n_]] for n_ in order]}]
+                cases.append({"id": cid, "settings": {"struct_builder": r.random() < 0.5}, "history": hist,
+                              "opts": {"has_impl": False, "hooks": True}})
+                meta[cid] = {"source": "derived_name:" + label, "settings": cases[-1]["settings"], "settings_sig": "small",
+                             "history_kind": hk + (":" + ">".join(order) if order else ""), "supported": False, "doc": doc}
     for i, (name, doc) in enumerate(schemars_corpus()):
         r = util.rng(seed, "C01", "m", name)
         add("m%04d" % i, doc, "schemars:" + name, r, supported=True, settings={}, hk=r.choice(["root", "refs_split"]))
